@@ -186,6 +186,14 @@ Definition to_event (prev cur : nav_obs) (c : nav_cmd2) : event :=
 Definition switching (d : dbg) (e : event) : bool :=
   match e with ESelect w => negb (Bool.eqb w (d_sel d)) | _ => false end.
 
+(* a client switch during which a handler of the debugger panicked (the
+   machine ended in Exception) and that did not take place: ClientSelectedEnd
+   / SelectingClientState redraw the tx bars, which panics in the class of
+   code 640; the transition is abandoned. Reported through the error codes,
+   not compared with the model; the time of the last scroll is unknown after it. *)
+Definition switch_failed (d : dbg) (e : event) (prev cur : nav_obs) : bool :=
+  switching d e && negb (N.eqb (no_err cur) 0) && Nat.eqb (no_sel cur) (no_sel prev).
+
 (* codes 12 who is selected, 13 / 14 list / cursor after a client switch,
    11 list or cursor after another command *)
 Definition nav2_mismatch_one (k : c16case) (prev : nav_obs) (st : nav2_st) (c : nav_cmd2) (cur : nav_obs)
@@ -196,6 +204,7 @@ Definition nav2_mismatch_one (k : c16case) (prev : nav_obs) (st : nav2_st) (c : 
   let d' := dbg_step (k_health k) d e in
   let cl := sel_client d' in
   let sw := switching d e in
+  if switch_failed d e prev cur then [] else
   ((if Nat.ltb (no_sel cur) 2 && Bool.eqb (d_sel d') (sel_of cur) then [] else [12]) ++
    (if lnat_eqb (c_filtered cl) (no_filtered cur) then [] else [if sw then 13 else 11]) ++
    (if (sw && match n_last st with None => true | Some _ => false end)
@@ -206,6 +215,8 @@ Definition nav2_next (k : c16case) (prev : nav_obs) (st : nav2_st) (c : nav_cmd2
   let d := obs_dbg k prev st in
   let e := to_event prev cur c in
   let sw := switching d e in
+  if switch_failed d e prev cur
+  then mkN2 (n_oc st) (n_ofl st) None (n_live st) (n_olive st) (n_fresh st) else
   let before := if sw then n_oc st else no_cursor prev in
   let last' := if sets_cursor d e
                then Some (scrolled_time (k_msgs (k_of k (sel_of cur))) before (no_cursor cur))
@@ -334,7 +345,7 @@ Fixpoint nav2_codes (k : c16case) (prev : nav_obs) (st : nav2_st) (l : list (nav
   | (c, o) :: r =>
     let d := obs_dbg k prev st in
     let e := to_event prev o c in
-    let sw := switching d e in
+    let sw := switching d e && negb (switch_failed d e prev o) in
     let st' := nav2_next k prev st c o in
     let kp := k_of k (sel_of prev) in
     let ks := k_of k (sel_of o) in
